@@ -12,12 +12,12 @@ use crate::mon;
 use crate::rng::Rng;
 use std::io::Cursor;
 
-/// A bzip2 stream of three blocks (level 1: 100 kB blocks), built once.
+/// A bzip2 stream of two blocks (level 1: 100 kB blocks), built once.
 fn multi_block_stream() -> &'static [u8] {
     static S: std::sync::OnceLock<Vec<u8>> = std::sync::OnceLock::new();
     S.get_or_init(|| {
         let mut rng = Rng::derive(0x9015_0A11, 78, 0);
-        let payload: Vec<u8> = (0..260_000).map(|i| if i % 3 == 0 { rng.u8() } else { (i % 251) as u8 }).collect();
+        let payload: Vec<u8> = (0..125_000).map(|i| if i % 3 == 0 { rng.u8() } else { (i % 251) as u8 }).collect();
         enc::bzip2_compress(&payload, 1)
     })
 }
@@ -82,11 +82,13 @@ pub fn run(index: u64) {
                 r.extend_from_slice(b"BZh9");
                 r.extend_from_slice(&rng.bytes(8));
                 let _ = mon::catch(|| nexrad_data::volume::Record::new(r).decompress().is_ok());
-                let whole = multi_block_stream();
-                let cut = whole.len() - 1 - rng.usize_below(whole.len() / 3);
-                let mut r = (cut as u32).to_be_bytes().to_vec();
-                r.extend_from_slice(&whole[..cut]);
-                let _ = mon::catch(|| nexrad_data::volume::Record::new(r).decompress().is_ok());
+                if rng.chance(1, 4) {
+                    let whole = multi_block_stream();
+                    let cut = whole.len() - 1 - rng.usize_below(whole.len() / 3);
+                    let mut r = (cut as u32).to_be_bytes().to_vec();
+                    r.extend_from_slice(&whole[..cut]);
+                    let _ = mon::catch(|| nexrad_data::volume::Record::new(r).decompress().is_ok());
+                }
                 let n = rng.usize_below(30);
                 let f = nexrad_data::volume::File::new(rng.bytes(n));
                 let _ = mon::catch(|| (f.records().len(), f.header().is_ok()));
